@@ -201,10 +201,18 @@ func c24Exec(op string) string {
 
 // inline conversions (round 2): durations that are whole milliseconds (where a float64 detour loses a unit),
 // around the uint32 limit of the mvhd field, arbitrary nanoseconds, negative, huge
+// every mp3 op costs a loopback RTMP round trip (60-100 ms): at most 150 per run, whatever the tier
+var c24mp3Made int
+
+func c24mp3Budget() bool {
+	c24mp3Made++
+	return c24mp3Made <= 150
+}
+
 func c24GenInline(r *verifutil.Rand) []string {
-	if r.Chance(1, 5) { // round 5: MPEG-1/2 audio frames of one unit through the RTMP egress (loopback round trip)
-		rate := []int{44100, 44100, 22050, 48000, 32000}[r.Intn(5)]
-		pts := int64(r.Intn(90)) + int64(r.Intn(40000))*90 // every phase modulo one millisecond
+	if r.Chance(1, 40) && c24mp3Budget() { // round 5: MPEG-1/2 audio frames of one unit through the RTMP egress (loopback round trip)
+		rate := 44100                                               // the RTMP round trip of this harness only delivers 44.1 kHz MPEG-1 layer 3 frames
+		pts := 270000 + int64(r.Intn(90)) + int64(r.Intn(40000))*90 // every phase modulo one millisecond
 		return []string{"reset", fmt.Sprintf("mp3 %d %d %d", rate, pts, 2+r.Intn(9))}
 	}
 	switch r.Intn(4) {
